@@ -92,6 +92,14 @@ def parseOp {α : Type} (c : Codec α) (ts : List String) : Option (Op α) :=
   | ["qget", h] => do some (.qget (← nat h))
   | _ => none
 
+/-- the "median killer" permutation of `0..n-1`: the middle element is the maximum at every level of quicksort -/
+def killer (n : Nat) : List Int := Id.run do
+  let mut a : Array Int := Array.replicate n 0
+  for m in [2:n+1] do
+    a := a.set! (m - 1) (a.getD (m / 2) 0)
+    a := a.set! (m / 2) ((m : Int) - 1)
+  return a.toList
+
 def run1 {α : Type} [DecidableEq α] (E : Elem α) (c : Codec α) (showLive : Bool) (st : St α) (ts : List String) :
     St α × String :=
   match ts with
@@ -166,6 +174,17 @@ def step (a : All) (ts : List String) : All × String :=
       | none => (a, "bad-op")
       | some ci =>
         if t = 'i' then
+          match rest with
+          | ["ksort", h, n, mode] =>
+            -- `Array<int> r(n)` filled with the median-killer permutation (mirrored for the descending comparator),
+            -- stored into slot h, then `sort()` / `sort(Desc)` / `sortBy(key, true)`
+            let nn := n.toNat?.getD 0
+            let vals := if mode = "1" then (killer nn).map fun x => (nn : Int) - 1 - x else killer nn
+            let (st1, _) := run1 (intElem 4) intCodec false (a.i.getD ci St.init) ("newp" :: h :: vals.map toString)
+            let (st2, out) := run1 (intElem 4) intCodec false st1
+              (if mode = "1" then ["sortd", h] else if mode = "2" then ["sortby", h, "1"] else ["sort", h])
+            ({ a with i := a.i.set! ci st2 }, out)
+          | _ =>
           let (st, out) := run1 (intElem 4) intCodec false (a.i.getD ci St.init) rest
           ({ a with i := a.i.set! ci st }, out)
         else if t = 's' then
